@@ -185,6 +185,14 @@ func H_truncate() {
 func H_signature() {
 	nh := rt.Param("nh")
 	c := &tlc.Container{Size: 8, Files: []*tlc.File{{Path: "a", Mode: 0o644, Size: 5}, {Path: "e", Mode: 0o644, Size: 0, Offset: 5}, {Path: "b", Mode: 0o644, Size: 3, Offset: 5}}}
+	if rt.HasParam("layout") {
+		switch rt.Param("layout") {
+		case 1: // the empty file first (no hash before its zero-length one)
+			c = &tlc.Container{Size: 8, Files: []*tlc.File{{Path: "e", Mode: 0o644, Size: 0}, {Path: "a", Mode: 0o644, Size: 5}, {Path: "b", Mode: 0o644, Size: 3, Offset: 5}}}
+		case 2: // one, then two hashes before empty files; an empty file last
+			c = &tlc.Container{Size: 5, Files: []*tlc.File{{Path: "a", Mode: 0o644, Size: 2}, {Path: "e1", Mode: 0o644, Size: 0, Offset: 2}, {Path: "e2", Mode: 0o644, Size: 0, Offset: 2}, {Path: "b", Mode: 0o644, Size: 3, Offset: 2}, {Path: "e3", Mode: 0o644, Size: 0, Offset: 5}}}
+		}
+	}
 	var buf bytes.Buffer
 	wc := wire.NewWriteContext(&buf)
 	hlib.Must(wc.WriteMagic(pwr.SignatureMagic), "magic")
